@@ -49,9 +49,12 @@ type Contract struct {
 	Ensures  []*Clause
 	Modifies []string
 	ModAll   bool
+	ModAllBut []string // `modifies allbut T, ghost, bytes`: everything may change except these
 	HasMod   bool
 	LoopInv  map[int][]*Clause
 	LoopStep map[int][]*Clause
+	AtSend   []*AtSend
+	AtCall   []*AtSend // Field = callee name
 	Props    []string
 	Inline   bool
 	Trusted  bool
@@ -63,6 +66,13 @@ type Contract struct {
 	File     string
 	IsIface  bool
 	Replay   []string
+}
+
+// AtSend: a fact checked at every send on the channel held in a struct field
+// of that name, inside the function (the sent value is `sent`).
+type AtSend struct {
+	Field  string
+	Clause *Clause
 }
 
 type Pred struct {
@@ -89,7 +99,7 @@ func (c *Contract) nilable(name string, isRecv bool) bool {
 	return c.Nilable[name]
 }
 
-var clauseKeywords = map[string]bool{"nilable": true, "pure": true, "defines": true, "requires": true, "ensures": true, "modifies": true, "loop": true, "property": true,
+var clauseKeywords = map[string]bool{"atsend": true, "atcall": true, "nilable": true, "pure": true, "defines": true, "requires": true, "ensures": true, "modifies": true, "loop": true, "property": true,
 	"inline": true, "trusted": true, "nilrecv": true, "maypanic": true, "label": true, "replay": true, "topensures": true}
 
 func (e *Engine) loadContracts(dir string, pkg *types.Package) error {
@@ -295,13 +305,16 @@ func (e *Engine) loadContractFile(path string, pkg *types.Package) error {
 			lastMod = true
 			if rest == "all" {
 				cur.ModAll = true
+			} else if strings.HasPrefix(rest, "allbut ") {
+				cur.ModAll = true
+				cur.ModAllBut = splitTop(strings.TrimPrefix(rest, "allbut "), ',')
 			} else if rest != "" && rest != "nothing" {
 				cur.Modifies = append(cur.Modifies, splitTop(rest, ',')...)
 			}
 		case "loop":
 			// loop K invariant <spec>
-			if len(fields) < 3 || (fields[2] != "invariant" && fields[2] != "step") {
-				return fail(fmt.Errorf("expected: loop K invariant|step <spec>"))
+			if len(fields) < 3 || (fields[2] != "invariant" && fields[2] != "step" && fields[2] != "decreases") {
+				return fail(fmt.Errorf("expected: loop K invariant|step|decreases <spec>"))
 			}
 			k, err := strconv.Atoi(fields[1])
 			if err != nil {
@@ -309,7 +322,15 @@ func (e *Engine) loadContractFile(path string, pkg *types.Package) error {
 			}
 			i := strings.Index(rest, fields[2])
 			lastClause = &Clause{Text: strings.TrimSpace(rest[i+len(fields[2]):]), Label: pendingLabel}
-			if fields[2] == "step" {
+			if fields[2] == "decreases" {
+				// termination measure: non-negative at the loop head and strictly smaller after every iteration
+				m := lastClause.Text
+				lastClause.Text = "0 <= prev(" + m + ") && (" + m + ") < prev(" + m + ")"
+				if lastClause.Label == "" {
+					lastClause.Label = "decreases " + m
+				}
+				cur.LoopStep[k] = append(cur.LoopStep[k], lastClause)
+			} else if fields[2] == "step" {
 				cur.LoopStep[k] = append(cur.LoopStep[k], lastClause)
 			} else {
 				cur.LoopInv[k] = append(cur.LoopInv[k], lastClause)
@@ -327,6 +348,16 @@ func (e *Engine) loadContractFile(path string, pkg *types.Package) error {
 			cur.Inline = true
 		case "trusted":
 			cur.Trusted = true
+		case "atsend":
+			// atsend <field> <spec>
+			lastClause = &Clause{Text: strings.TrimSpace(strings.TrimPrefix(rest, fields[1])), Label: pendingLabel}
+			cur.AtSend = append(cur.AtSend, &AtSend{Field: fields[1], Clause: lastClause})
+			pendingLabel = ""
+		case "atcall":
+			// atcall <callee name> <spec>: checked in the caller's state just before each such call
+			lastClause = &Clause{Text: strings.TrimSpace(strings.TrimPrefix(rest, fields[1])), Label: pendingLabel}
+			cur.AtCall = append(cur.AtCall, &AtSend{Field: fields[1], Clause: lastClause})
+			pendingLabel = ""
 		case "pure":
 			cur.Pure = true
 		case "defines":
@@ -364,6 +395,12 @@ func (e *Engine) finishContracts() error {
 		}
 		for _, cs := range c.LoopStep {
 			all = append(all, cs...)
+		}
+		for _, as := range c.AtSend {
+			all = append(all, as.Clause)
+		}
+		for _, as := range c.AtCall {
+			all = append(all, as.Clause)
 		}
 		for _, cl := range all {
 			sp, err := parseSpec(cl.Text)
